@@ -26,6 +26,7 @@ import threading
 import numpy as np
 
 from .. import core, encode, inputs, pool
+from . import rel_common as rc
 
 FN_BU = "clustering_coef_bu"
 FN_BD = "clustering_coef_bd"
@@ -65,16 +66,28 @@ def _q(x):
         return encode.INF if x > 0 else encode.NINF
 
 
+BINARY_FNS = (FN_BU, FN_BD, FN_TBU, FN_TBD)
+NP_DTYPE = {"float": "float64", "int": "int64"}       # historical job spellings
+
+
+def arg_dtype(fn, dtype):
+    """what routine `fn` may be handed for a drawn dtype (rel_common.admissible): bool only to the
+    four routines documented for binary networks; every output is a ratio (real-valued) -> no
+    float32; none of them copies its argument to float before doing arithmetic on it -> no uint8"""
+    return rc.admissible(NP_DTYPE.get(dtype, dtype), binary=fn in BINARY_FNS)
+
+
 def exec_job(job):
     C = np.array(job["C"], dtype=np.int64)
     d = int(job["d"])
     n = len(C)
-    dtype = job.get("dtype", "float")
-    rec = dict(fn=job["fn"], n=n, C=C.tolist(), d=d, dtype=dtype, raised="", out=[], zero=[])
-    if dtype == "int":
-        W = C.copy()                                  # binary input given as an integer array
-    else:
-        W = np.sign(C) * (np.abs(C) / float(d)) ** 3  # weights (c/d)^3; d = 1: W == C
+    dtype = NP_DTYPE.get(job.get("dtype", "float"), job.get("dtype", "float"))
+    # r.dtype is read by the spec for the input class only ("float" = the plain class)
+    rec = dict(fn=job["fn"], n=n, C=C.tolist(), d=d,
+               dtype={"float64": "float", "int64": "int"}.get(dtype, dtype), raised="", out=[], zero=[])
+    W0 = np.sign(C) * (np.abs(C) / float(d)) ** 3     # weights (c/d)^3; d = 1: W == C
+    # the same matrix as another dtype (only when d = 1: integer-valued) / memory layout
+    W = rc.as_variant(W0, dtype, job.get("layout", "C"))
     try:
         res = _call(job["fn"], W)
     except Exception as e:
@@ -98,22 +111,35 @@ def cmat(n, edges, und, val):
     return C
 
 
-def add_jobs(jobs, fns, C, d, src, dtype="float"):
+def add_jobs(jobs, fns, C, d, src, dtype="float", layout="C"):
+    """dtype: 'float' (float64), 'int' (int64) or a numpy dtype name = the input's DRAW; each
+    routine is handed arg_dtype(fn, draw).  Non-float dtypes need d = 1 (integer-valued W)."""
     for fn in fns:
-        jobs.append(dict(fn=fn, C=C, d=d, dtype=dtype, src=src))
+        eff = arg_dtype(fn, dtype) if d == 1 else "float64"
+        jobs.append(dict(fn=fn, C=C, d=d, dtype={"float64": "float", "int64": "int"}.get(eff, eff),
+                         layout=layout, src=src))
 
 
-def decorate(jobs, rng, n, edges, und, src, weighted=True, und_as_dir=True):
-    """binary / weighted / signed versions of one support."""
+WSETS = [[1, 2, 3, 3], [1, 2, 3, 3], [1, 2, 3], [3], [2], [1], [1, 3]]     # 3/3 = weight exactly 1; single value: all ties
+
+
+def decorate(jobs, rng, n, edges, und, src, weighted=True, und_as_dir=True, variant=None):
+    """binary / weighted / signed versions of one support.  variant: draw the argument dtype
+    (binary and unit-signed versions: integer-valued) and memory layout, and the weight set."""
     fns = (UND_BIN if und_as_dir else UND_BIN[:7]) if und else DIR_BIN
-    add_jobs(jobs, fns, cmat(n, edges, und, lambda i, j: 1), 1, src)
+    dv = (lambda fam: rc.draw_variant(rng, fam, variant)) if variant is not None else (lambda fam: ("float", "C"))
+    add_jobs(jobs, fns, cmat(n, edges, und, lambda i, j: 1), 1, src, *dv(rc.DT_BIN))
     if weighted:
+        ws = rng.choice(WSETS) if variant is not None else WSETS[0]
         add_jobs(jobs, UND_W if und else DIR_W,
-                 cmat(n, edges, und, lambda i, j: rng.choice([1, 2, 3, 3])), 3, src + "-w")
+                 cmat(n, edges, und, lambda i, j: rng.choice(ws)), 3, src + "-w", *dv(rc.DT_FLOAT))
         if und:
             add_jobs(jobs, SIGN,
                      cmat(n, edges, und, lambda i, j: rng.choice([-3, -2, -1, 1, 2, 3])), 3,
-                     src + "-signed")
+                     src + "-signed", *dv(rc.DT_FLOAT))
+            if variant is not None:     # weights exactly -1 / +1: a signed network as an integer array
+                add_jobs(jobs, SIGN, cmat(n, edges, und, lambda i, j: rng.choice([-1, 1])), 1,
+                         src + "-signed-unit", *dv(rc.DT_SIGNED))
 
 
 def structured(rng, n, kind):
@@ -166,51 +192,53 @@ def build_jobs(ctx):
             src = "model-und%d" % n
             if n == 6:
                 # 32768 graphs: the two binary undirected routines on all of them, the other
-                # undirected ones on every 8th, weighted/signed versions on every 16th
-                if gi % 8 == 0:
-                    decorate(jobs, rng, n, edges, True, src, weighted=(gi % 16 == 0), und_as_dir=False)
+                # undirected ones on 1 in 8, weighted/signed versions on half of those (RNG-drawn)
+                if rng.random() < 0.125:
+                    decorate(jobs, rng, n, edges, True, src, weighted=rng.random() < 0.5, und_as_dir=False)
                 else:
                     add_jobs(jobs, [FN_BU, FN_TBU], cmat(n, edges, True, lambda i, j: 1), 1, src)
                 continue
-            # all binary; weighted/signed: all for n <= 4, every 2nd (quick) / all (thorough) for
+            # all binary; weighted/signed: all for n <= 4, a drawn half (quick) / all (thorough) for
             # n = 5; the directed functions on symmetric input: n <= 4 (quick) / n <= 5 (thorough)
             # - every digraph on 4 nodes is covered below anyway
-            full = n <= 4 or not ctx.quick or gi % 2 == 0
+            full = n <= 4 or not ctx.quick or rng.random() < 0.5
             decorate(jobs, rng, n, edges, True, src, weighted=full,
                      und_as_dir=(n <= 4 or not ctx.quick))
     for n in [3, 4]:
         graphs = inputs.model_graphs(ctx, "dir", n)
         for gi, edges in enumerate(graphs):
-            full = n == 3 or (gi % (4 if ctx.quick else 1) == 0)
+            full = n == 3 or not ctx.quick or rng.random() < 0.25
             decorate(jobs, rng, n, edges, False, "model-dir%d" % n, weighted=full)
-    # --- binary networks handed over as integer arrays
-    for edges in inputs.model_graphs(ctx, "und", 4):
-        add_jobs(jobs, UND_BIN, cmat(4, edges, True, lambda i, j: 1), 1, "model-und4-int", "int")
-    for edges in inputs.sample(rng, inputs.model_graphs(ctx, "dir", 4), 100):
-        add_jobs(jobs, DIR_BIN, cmat(4, edges, False, lambda i, j: 1), 1, "model-dir4-int", "int")
-    # --- seeded random and structured graphs, n in 6..10
+    # --- the model networks again as another argument dtype (binary: int64/int32/bool; weights
+    #     -1/+1: int64/int32) and memory layout (Fortran, transposed, window, strided)
+    for n, cap in ((4, None), (5, 200 if ctx.quick else None)):
+        for edges in inputs.sample(rng, inputs.model_graphs(ctx, "und", n), cap or 10 ** 9):
+            decorate(jobs, rng, n, edges, True, "model-und%d-variant" % n, weighted=rng.random() < 0.3,
+                     und_as_dir=True, variant=0.0)
+    for edges in inputs.sample(rng, inputs.model_graphs(ctx, "dir", 4), 250 if ctx.quick else 4096):
+        decorate(jobs, rng, 4, edges, False, "model-dir4-variant", weighted=rng.random() < 0.3, variant=0.0)
+    # --- seeded random and structured graphs, n in 6..10; shape, direction, density, weight set,
+    #     dtype and layout are independent draws
     nrand = 120 if ctx.quick else 1000
     for k in range(nrand):
         n = rng.randint(6, 10)
-        if k % 2 == 0:
-            kind = KINDS[(k // 2) % len(KINDS)]
+        r = rng.random()
+        if r < 0.35:
+            kind = rng.choice(KINDS)
             edges = structured(rng, n, kind)
-            decorate(jobs, rng, n, edges, True, "struct-" + kind)
-            # orient it: each edge one way, the other way, or both
-            darcs = []
-            for (i, j) in edges:
-                o = rng.choice([0, 1, 2])
-                if o in (0, 2):
-                    darcs.append((i, j))
-                if o in (1, 2):
-                    darcs.append((j, i))
-            decorate(jobs, rng, n, darcs, False, "struct-dir-" + kind)
+        elif r < 0.55:
+            kind, n, edges = rc.structured_support(rng, 6, 10)
+        if r < 0.55:
+            if rng.random() < 0.5:
+                decorate(jobs, rng, n, edges, True, "struct-" + kind, variant=0.4)
+            else:   # orient it: each edge one way, the other way, or both
+                decorate(jobs, rng, n, rc.orient(rng, edges), False, "struct-dir-" + kind, variant=0.4)
         else:
             p = rng.choice([0.1, 0.2, 0.35, 0.6])
-            und = (k // 2) % 2 == 0
+            und = rng.random() < 0.5
             edges = [(i, j) for i in range(n) for j in range(n)
                      if (i < j if und else i != j) and rng.random() < p]
-            decorate(jobs, rng, n, edges, und, "random-" + ("und" if und else "dir"))
+            decorate(jobs, rng, n, edges, und, "random-" + ("und" if und else "dir"), variant=0.4)
     return jobs
 
 
@@ -267,8 +295,8 @@ def validate_parallel(ctx, recs, parts=6, par=3):
 
 
 def what(job, rec, clause):
-    return "src=%s n=%d d=%d dtype=%s C=%s out=%s raised=%s" % (
-        job.get("src"), rec["n"], rec["d"], rec["dtype"], rec["C"], rec["out"], rec["raised"])
+    return "src=%s n=%d d=%d dtype=%s layout=%s C=%s out=%s raised=%s" % (
+        job.get("src"), rec["n"], rec["d"], rec["dtype"], job.get("layout", "C"), rec["C"], rec["out"], rec["raised"])
 
 
 def run(ctx):
@@ -276,7 +304,9 @@ def run(ctx):
     jobs = build_jobs(ctx)
     recs = pool.run_jobs(__name__, jobs)
     verdicts = validate_parallel(ctx, recs)
-    ctx.judge(jobs, recs, verdicts, what=what)
+    tagjobs = [dict(j, dtype=NP_DTYPE.get(j.get("dtype", "float"), j.get("dtype"))) for j in jobs]
+    ctx.judge(jobs, rc.tag_failures(ctx, tagjobs, recs, verdicts), verdicts, what=what)
+    ctx.extra["argument_variants"] = rc.variant_counts(tagjobs)
     # non-trivial (spec-computed input class): a node on a triangle next to a node that is on none
     seen = set()
     per_fn = {}
@@ -289,15 +319,18 @@ def run(ctx):
     ctx.extra["records_per_function"] = per_fn
     ctx.rule = ("every undirected graph on 3..%d nodes and every digraph on 3..4 nodes (TLC-enumerated; "
                 "binary for all applicable functions, plus weights (c/3)^3, c in 1..3, and random signs; "
-                "%s), binary int-dtype arrays on 4 nodes, %d seeded structured (stars, disjoint triangles "
-                "with isolated nodes, bipartite, rings, complete) and random graphs n in 6..10, directed and "
-                "undirected; non-trivial = distinct (function, input) in which some node lies on a triangle "
+                "%s), the 4-node (sampled 5-node) networks again as int64/int32/bool arrays (binary), int arrays "
+                "with weights -1/+1 (signed) and in other memory layouts (Fortran, transposed, window, strided), "
+                "%d seeded structured (stars, disjoint triangles with isolated nodes, bipartite, rings, complete, "
+                "paths, caterpillars, rings of cliques, equal/unequal components) and random graphs n in 6..10, "
+                "directed and undirected, weight sets incl. single values and exactly 1, dtype/layout/option "
+                "choices drawn independently from the seeded RNG; non-trivial = distinct (function, input) in which some node lies on a triangle "
                 "and some node lies on none" % (
                     5 if ctx.quick else 6,
-                    "weighted versions of every 2nd 5-node graph and every 4th 4-node digraph"
+                    "weighted versions of a drawn half of the 5-node graphs and quarter of the 4-node digraphs"
                     if ctx.quick else
-                    "on 6 nodes: bu/transitivity_bu on all, the other undirected functions on every 8th, "
-                    "weighted/signed on every 16th", 120 if ctx.quick else 1000))
+                    "on 6 nodes: bu/transitivity_bu on all, the other undirected functions on a drawn 1/8, "
+                    "weighted/signed on half of those", 120 if ctx.quick else 1000))
     for k in (0, len(jobs) // 2, len(jobs) - 1):
         ctx.add_sample("input", dict(job=jobs[k], record=recs[k], verdict=list(verdicts[k])))
     ctx.assumptions += [
